@@ -192,6 +192,8 @@ class ShardState:
         self.out_of_time = False
 
     def _alarm(self, signum, frame):  # pragma: no cover - signal handler
+        # re-arm: an exception raised inside a gc callback or __del__ is swallowed
+        signal.setitimer(signal.ITIMER_REAL, 0.5)
         raise CaseTimeout()
 
     def execute(self, case: Any, record: bool = True) -> None:
